@@ -12,7 +12,8 @@
 From Coq Require Import List NArith ZArith Bool.
 From WV Require Import Lib.PyBytes Lib.PyStrProxy Model.Proxy Spec.ProxySpec
   Proof.ProxyDict Proof.ProxyStages Proof.ProxyTotal Proof.ProxyHops Proof.ProxyRel Proof.ProxyKinds
-  Proof.ProxyPrune Proof.ProxyCats Proof.ProxySplit.
+  Proof.ProxyPrune Proof.ProxyCats Proof.ProxySplit Proof.ProxyUnq Proof.ProxyExamples.
+From WV Require Import Lib.Regex Spec.Grammar.
 Import ListNotations.
 Local Open Scope N_scope.
 
@@ -153,6 +154,19 @@ Theorem C16_400 : forall c e,
   exists h, middleware c e = Malformed h.
 Proof. exact trusted_malformed. Qed.
 Print Assumptions C16_400.
+
+(* undquote: a value is refused exactly when it begins or ends with DQUOTE
+   without being an RFC 9110 quoted-string; the value of a quoted-string is its
+   body with every quoted-pair replaced by the escaped character (Spec.Unq),
+   for bodies of any length; an unquoted value is taken as it is. *)
+Theorem C16_undquote : forall v,
+  undquote v = (if bad_quoting v then Exn ValueError
+                else Ok (if starts_dq v then unescape (mid v) else v)) /\
+  (matches quoted_string v = true ->
+   exists body, v = 34 :: body ++ [34] /\ exists u, undquote v = Ok u /\ Unq body u) /\
+  (starts_dq v = false -> ends_dq v = false -> undquote v = Ok v).
+Proof. exact undquote_summary. Qed.
+Print Assumptions C16_undquote.
 
 (* the empty-host category of the property is NOT refused: finding F20
    (X-Forwarded-Host: :80 is accepted with SERVER_NAME "") *)
